@@ -164,6 +164,32 @@ WRITE_ONLY = frozenset(
 _PARENT: dict = {}
 
 
+def _apply_audit():
+    """put a dropped field back into the key when the static audit finds a new read of it (abstraction no longer sound)"""
+    global WRITE_ONLY, AUDIT_KEPT
+    import os
+
+    if os.environ.get("VERIF_NO_AUDIT"):
+        return
+    try:
+        from .audit import fields_to_keep
+
+        keep = fields_to_keep()
+    except Exception as e:  # the audit must never break a check
+        keep = set()
+        AUDIT_KEPT = [f"audit failed: {e}"]
+        return
+    structural = {"instance_id", "applied_instructions"}
+    keep = {k for k in keep if k not in structural}
+    if keep:
+        WRITE_ONLY = frozenset((c, f) for (c, f) in WRITE_ONLY if f not in keep)
+        AUDIT_KEPT = sorted(keep)
+
+
+AUDIT_KEPT: list = []
+_apply_audit()
+
+
 def expected_indexes(sim):
     """the eight index maps as they must be, computed from the entity maps"""
     res = sim.sim_h3_search_resolution
@@ -211,6 +237,8 @@ _ENT_CACHE: dict = {}
 _ENT_CACHE_MAX = 200000
 
 _STATIC_DROP = WRITE_ONLY | {("Request", "departure_time"), ("ChargeQueueing", "enqueue_time")}
+if "departure_time" in AUDIT_KEPT:
+    _STATIC_DROP = _STATIC_DROP - {("Request", "departure_time")} | {("Request", "departure_time")}
 
 
 def _entity_static(e, idle_clip: int):
